@@ -214,7 +214,9 @@ def find(
                     include,
                     os.path.dirname(e["file"]),
                 )
-                if include_file:
+                if include_file and file_platform.process_include(
+                    include_file,
+                ):
                     state.insert_file(include_file)
                     state.associate(include_file, file_platform)
 
